@@ -80,6 +80,13 @@ def _enter_server(self, gather_args: tuple = None):
     self._gather_thread.start()
 
 
+def _set_unless_done(setter, fut, y):
+    # Runs in the event loop thread; `fut` may have been cancelled by its
+    # (timed-out) caller after `_gather_output` looked at it.
+    if not fut.done():
+        setter(y)
+
+
 def _server_debug_info(self):
     now = perf_counter()
     futures = sorted(
@@ -382,10 +389,14 @@ class Server:
                 if isinstance(y, RemoteException):
                     y = y.exc
                 if not fut.cancelled():
-                    if isinstance(y, BaseException):
-                        fut.set_exception(y)
-                    else:
-                        fut.set_result(y)
+                    try:
+                        if isinstance(y, BaseException):
+                            fut.set_exception(y)
+                        else:
+                            fut.set_result(y)
+                    except concurrent.futures.InvalidStateError:
+                        # Cancelled by its (timed-out) caller since the check above.
+                        pass
                 fut.data['t2'] = perf_counter()
                 q_notify.put(1)
         finally:
@@ -646,9 +657,9 @@ class AsyncServer:
                 if isinstance(y, RemoteException):
                     y = y.exc
                 if isinstance(y, BaseException):
-                    loop.call_soon_threadsafe(fut.set_exception, y)
+                    loop.call_soon_threadsafe(_set_unless_done, fut.set_exception, fut, y)
                 else:
-                    loop.call_soon_threadsafe(fut.set_result, y)
+                    loop.call_soon_threadsafe(_set_unless_done, fut.set_result, fut, y)
                 fut.data['t2'] = perf_counter()
 
             f = asyncio.run_coroutine_threadsafe(notify(), loop)
